@@ -14,6 +14,10 @@ MCFStrsEmptyA == {"", "a"}
 (* B values: two ordinary ones, and the odd ones NewTagValue permits *)
 MCFBoth == {<<"a", 1>>, <<"b", 2>>, <<"", 1>>, <<"a", 0>>}
 MCFBothSmall == {<<"a", 1>>, <<"b", 2>>}
+(* values no producer makes (NewTagValueS(""), NewTagValueM(0), NewTagValue("", n), NewTagValue(s, 0)):
+   model checked to document what the code does with them, not replayed on the code *)
+MCFStrsOdd == {"", "a"}
+MCFBothOdd == {<<"", 1>>, <<"a", 0>>, <<"a", 1>>}
 (* regexes as the sets they match: one value, two values, the empty string and a value *)
 MCRes == {"ra", "rab", "rea"}
 MCResSmall == {"rab"}
